@@ -273,11 +273,12 @@ def caughtError (w : W) (msg : String) : W :=
 def freeSlot (l : List (Option Conn)) (id : Nat) : List (Option Conn) :=
   l.map (fun s => if hasId id s then none else s)
 
-/-- first free slot index >= 1, or the table size -/
+/-- `for (i = 1; i < max_users; i++) if (!all_users[i]) break;` - first free slot index >= 1 (slot 0 is the
+    console's), else where the loop stops: the table size, but never below 1 (empty table: i stays 1) -/
 def firstFree (l : List (Option Conn)) : Nat :=
   match (l.drop 1).findIdx? (fun s => s.isNone) with
   | some i => i + 1
-  | none => l.length
+  | none => max 1 l.length
 
 /-- new_interactive(): returns the new record's serial, or none when it refused (console user exists) -/
 def newInteractive (w : W) (console : Bool) (client : Nat) : W × Option Nat :=
